@@ -254,7 +254,7 @@ func runConc(tr *vutil.Trace, sc concScenario) {
 	tr.Emit(map[string]interface{}{"event": "Conc", "init": sc.Init, "op2": sc.Op2, "sched": sc.Sched,
 		"followed": followed, "ok1": ok1, "ok2": ok2, "state": project()})
 	out := pool.PackForCast(3, stateDB)
-	tr.Emit(map[string]interface{}{"event": "Pack", "out": ids(out), "state": project()})
+	tr.Emit(map[string]interface{}{"event": "Pack", "out": ids(out), "pre018": false, "state": project()})
 }
 
 func concMode(tr *vutil.Trace, path string) int {
